@@ -2,7 +2,9 @@ use crate::Comp;
 pub mod nio;
 pub mod qconc;
 pub mod queue;
+pub mod rtwait;
 pub mod time;
+pub mod timeouts;
 pub mod tlcache;
 
 pub static ALL: &[Comp] = &[
@@ -11,5 +13,7 @@ pub static ALL: &[Comp] = &[
     Comp { name: "qconc", gen: qconc::gen, exec: qconc::exec, isolate_ms: 20000 },
     Comp { name: "nio", gen: nio::gen, exec: nio::exec, isolate_ms: 3000 },
     Comp { name: "tlcache", gen: tlcache::gen, exec: tlcache::exec, isolate_ms: 5000 },
+    Comp { name: "timeouts", gen: timeouts::gen, exec: timeouts::exec, isolate_ms: 5000 },
+    Comp { name: "rtwait", gen: rtwait::gen, exec: rtwait::exec, isolate_ms: 10000 },
     Comp { name: "pq", gen: queue::gen_pq, exec: queue::exec_pq, isolate_ms: 1000 },
 ];
